@@ -8,7 +8,7 @@ diffs = sorted(d for p in pats for d in glob.glob(p))
 def one(d):
     tmp = tempfile.mkdtemp(prefix="ref-")
     shutil.copytree("/repo/repid", tmp + "/repid", ignore=shutil.ignore_patterns("__pycache__"))
-    r = subprocess.run(["patch", "-p1", "-s", "-d", tmp, "-i", d], capture_output=True, text=True)
+    r = subprocess.run(["patch", "-p1", "-s", "-f", "-d", tmp, "-i", d], capture_output=True, text=True)
     if r.returncode != 0:
         shutil.rmtree(tmp); return d, ["PATCH FAILED"]
     out = []
